@@ -17,8 +17,6 @@ import (
 	"math/rand"
 	"os"
 	"runtime"
-	"runtime/pprof"
-	"sort"
 	"strings"
 	"sync"
 	"sync/atomic"
@@ -93,7 +91,19 @@ func (s *statsT) minSlack(d time.Duration) {
 
 var stats statsT
 
-var stopProfile = func() {}
+// lagMonitor measures how late 1 ms sleeps wake up: the only use is to turn
+// bounded-progress verdicts into "inconclusive" when the machine itself stalled.
+var maxLagNs atomic.Int64
+
+func lagMonitor() {
+	for {
+		t0 := now()
+		time.Sleep(time.Millisecond)
+		if lag := int64(now() - t0 - time.Millisecond); lag > maxLagNs.Load() {
+			maxLagNs.Store(lag)
+		}
+	}
+}
 
 // splitMix is a cheap seed-determined generator for per-case choices
 // (math/rand's seeding costs more than a whole case).
@@ -306,9 +316,10 @@ func runUnit(u unit, lrn []learned, local map[string]int64) {
 		res := runCase(c)
 		rep.Eval(1)
 		local["cases"]++
-		local["cases:"+c.Regime+"/"+c.Order+"/pause="+c.Pause]++
 		if c.Edge != "" {
-			local["threshold_edge_cases"]++
+			local["cases:threshold-edge/"+c.Edge]++
+		} else {
+			local["cases:"+c.Regime+"/"+c.Order+"/pause="+c.Pause]++
 		}
 		if c.Cancel >= 0 || c.CancelRace >= 0 {
 			local["cases_with_context_end"]++
@@ -435,16 +446,14 @@ func main() {
 	rep.Assume("'primary in time' is certain by construction: it is released within milliseconds while the threshold is 5000 ms (cases that take longer than 2.5 s are reported inconclusive)")
 	rep.Assume("'the call returns' is restated as returning within 4 s of the enabling event (nominal < 1 ms, resp. the 10-40 ms threshold)")
 	rep.Assume("when the caller's context ends at the same time as a result becomes due, either the result or the context error is accepted")
-	if pf := os.Getenv("C20_CPUPROFILE"); pf != "" {
-		f, _ := os.Create(pf)
-		_ = pprof.StartCPUProfile(f)
-		defer pprof.StopCPUProfile()
-		stopProfile = pprof.StopCPUProfile
-	}
+	go lagMonitor()
 	buildPlugins()
 	sched.On("fallback.primary.signalled", hookPrimarySignalled)
 	sched.On("fallback.secondary.finished", hookSecondary("hook.S.finished"))
 	sched.On("fallback.secondary.releasing", hookSecondary("hook.S.releasing"))
+	// seeded jitter at the three schedule points widens the unforced interleavings
+	// (no verdict compares a duration with an upper bound, so this cannot create alarms)
+	sched.Perturb(rep.Seed, 0.15, 300*time.Microsecond, "fallback.primary.signalled", "fallback.secondary.finished", "fallback.secondary.releasing")
 
 	settleUs := 2000
 
@@ -482,9 +491,6 @@ func main() {
 	parallel := 96
 	rng := rand.New(rand.NewSource(rep.Seed))
 	bases := baseCells()
-	if os.Getenv("C20_DEBUG_ONLY_EDGE") != "" {
-		bases = nil
-	}
 	procsList := []int{1, 2, 16}
 	nUnits := 0
 	passWall := map[string]float64{}
@@ -576,12 +582,10 @@ func main() {
 	if stats.slackSet {
 		rep.Extra("min_observed_(elapsed-threshold)_us_at_timer_driven_failover", float64(stats.slack)/1e3)
 	}
-	names := []string{}
 	for name, n := range sched.Counts() {
 		rep.Count("hook:"+name, n)
-		names = append(names, name)
 	}
-	sort.Strings(names)
+	rep.Extra("max_scheduling_lag_ms", float64(maxLagNs.Load())/1e6)
 	if aborted.Load() {
 		rep.Extra("aborted_early", fmt.Sprintf("stopped scheduling new cases after %d violating cases", abortAfter))
 	}
@@ -598,6 +602,5 @@ func main() {
 			rep.Inconclusive("monitor observed no context end / no secondary start")
 		}
 	}
-	stopProfile()
 	rep.Finish()
 }
